@@ -98,6 +98,17 @@ def worker(c):
                     out["der_control_raises"] = True
             except Exception:
                 out["der_control_raises"] = True
+            # der of an expression that depends on an algebraic variable: not along the declared dynamics -> must raise
+            o2 = rockit.Ocp(T=1)
+            x2 = o2.state(); z2 = o2.algebraic()
+            o2.set_der(x2, -x2 + z2)
+            o2.add_alg(z2 - x2 ** 2)
+            try:
+                dz = o2.der(z2 * x2 if c["nx"] % 2 else z2)
+                out["der_alg_raises"] = False
+                out["der_alg_value"] = str(dz)[:80]
+            except Exception:
+                out["der_alg_raises"] = True
             # control of order k: k derivatives exist, one more raises
             k = c["order"]
             w = ocp.control(order=k)
@@ -162,6 +173,9 @@ def run(tier="quick", seed=0, jobs=16):
             ch = r["chain"]
             if not d and not (ch["ok"] and ch["derivatives_taken"] == ch["order"] and ch["one_more_raises"] and ch["last_is_control"]):
                 d = [{"what": "control(order=k): der does not walk down exactly k derivatives to the raw control and then raise", "chain": ch}]
+            if not d and not r.get("der_alg_raises", True):
+                d = [{"what": "der of an expression depending on an algebraic variable did not raise (the variable is treated as a constant)",
+                      "returned": r.get("der_alg_value")}]
             if not d and not r["der_control_raises"]:
                 d = [{"what": "der of an expression depending on a control did not raise"}]
         if d:
